@@ -28,6 +28,70 @@ def drive(case):
     return rec
 
 
+def drive_split(case):
+    """replay a TLC scenario of Linear.tla into the real utils.get_txt_pos_ml"""
+    import contextlib, io
+    from yalafi import tex2txt  # noqa (import order of the package)
+    from yalafi import defs, parameters, utils
+    parms = parameters.Parameters('en')
+    parms.multi_language = True
+    parms.ml_continue_thresh = case['thresh']
+    toks = []
+    for j, t in enumerate(case['toks'], 1):
+        if t['k'] == 'ch':
+            toks.append(defs.TextToken(j, t['c']) if t['c'] != ' ' else defs.SpaceToken(j, ' '))
+        else:
+            toks.append(defs.LanguageToken(j, lang=t['lang'], back=t['back'], hard=t['hard'], brk=t['brk']))
+    rec = {'id': case['id'], 'toks': case['toks']}
+    try:
+        with contextlib.redirect_stderr(io.StringIO()):
+            ml = utils.get_txt_pos_ml(toks, 'en', parms)
+        parts = []
+        for lang in ml:
+            for txt, pos in ml[lang]:
+                parts.append({'lang': lang, 'idx': [p for ch, p in zip(txt, pos) if ch == 'a']})
+        rec['parts'] = parts
+        rec['outcome'] = 'returned'
+    except BaseException as e:  # noqa
+        rec['parts'] = []
+        rec['outcome'] = 'exception:' + type(e).__name__
+    return rec
+
+
+def splitter_phase(c, tier):
+    """Linear.tla: the splitter as a state machine; design check for all token lists, replay into the real splitter"""
+    q = tier == 'quick'
+    recs = []
+    for thresh in ((1,) if q else (0, 1, 2)):
+        n = 5 if q else 6
+        cfg = tlc.cfg_text(constants={'MaxToks': n, 'Thresh': thresh, 'OldDesign': False},
+                           invariants=['EachOnce', 'RightLabel', 'InOrder', 'Dump'], properties=['Terminates'])
+        r = c.tlc('Linear.tla: all token lists of <= %d tokens, threshold %d (each character once, right label, termination)' % (n, thresh), 'Linear', cfg, timeout=1800)
+        scen = r.json('@@')
+        c.rng.shuffle(scen)
+        cases = [dict(id='sp%d.%d' % (thresh, k), toks=s['toks'], thresh=thresh) for k, s in enumerate(scen[:6000 if q else 60000])]
+        got = c.drive(cases, drive_split)
+        for x in got:
+            if x['outcome'] != 'returned':
+                c.violation(x, 'splitter:no-result:' + x['outcome'])
+        ok = [x for x in got if x['outcome'] == 'returned']
+        verdicts = c.validate('LinearTrace: the real splitter along TLC scenarios (threshold %d)' % thresh, 'LinearTrace', ok, spec='TSpec',
+                              constants={'MaxToks': 0, 'Thresh': thresh, 'OldDesign': False},
+                              project=lambda x: {k: x[k] for k in ('id', 'toks', 'parts')})
+        for x in ok:
+            v = verdicts[x['id']]
+            if v['c12'] != 'ok':
+                c.violation(x, 'splitter:' + v['c12'])
+            elif v['drift'] != 'none':
+                c.drift.append({'tokens': x['toks'], 'what': v['drift']})
+        recs += ok
+    # the design before the fix: TLC must find the counterexample (documentation of the finding at design level)
+    cfg = tlc.cfg_text(constants={'MaxToks': 4, 'Thresh': 1, 'OldDesign': True}, invariants=['RightLabel'])
+    r = c.tlc('Linear.tla with OldDesign=TRUE: counterexample expected', 'Linear', cfg, allow_violation=True)
+    c.extra['old_design_counterexample_found'] = 'RightLabel' in r.violated
+    c.extra['splitter_scenarios_replayed'] = len(recs)
+
+
 def rotation_phase(c, tier):
     """C10 in multi-language mode: formulas of each language rotate through that language's collection"""
     q = tier == 'quick'
@@ -87,6 +151,12 @@ def run(prop, tier, seed, replay=None):
             combos = [(MAINS[i % 3], c.rng.randrange(6))] if q else [(m, t) for m in MAINS for t in (0, 1, 2, 5)]
             for m, t in combos:
                 cases.append(dict(id=len(cases), doc=b['doc'], src=b['src'], mainlang=m, thresh=t))
+    if not replay:
+        splitter_phase(c, tier)
+        if q and len(cases) > 30000:
+            # quick: all documents with an insertion-related construct are kept in thorough runs; here a seeded sample
+            c.rng.shuffle(cases)
+            cases = cases[:30000]
     recs = c.drive(cases, drive)
     for r in recs:
         if r['outcome'] != 'returned':
